@@ -136,7 +136,8 @@ def changeOk (bridge : Bytes) : List TxOut → Bool
 /-- **P16** for a candidate outcome of building the withdrawal for `i` (`none` = no transaction):
     outputs = one per proposal (exact amount, recipient's script) ++ zero-value metadata ++ at most one positive change to
     the bridge; inputs are a prefix of the bridge's UTXO list; no negative output value; inputs − outputs = the relayer's
-    fee quote (second call) for this shape; an invalid recipient or missing quote/listing/metadata admits no transaction. -/
+    fee quote (second call) for the shape (#inputs, #proposals + 1 outputs) — the change output is not counted, as in the code;
+    an invalid recipient or missing quote/listing/metadata admits no transaction. -/
 def P16 (i : Inp) : Option Tx → Prop
   | none => True
   | some tx =>
